@@ -1,7 +1,7 @@
 (** Model of analysis/analysis.go: createType (one level), the closure of handleType over the
     declarations of the source file, and the Type() reconstruction of every node kind. *)
 From Coq Require Import List String ZArith Bool Arith Ascii.
-From GM Require Import Base.Result Base.StrOrd Facts.GoFacts Facts.Ana Model.Enums Model.Unions.
+From GM Require Import Base.Result Base.StrOrd Facts.GoFacts Facts.Ana Model.Enums Model.Unions Model.Fields.
 Import ListNotations.
 Local Open Scope string_scope.
 
@@ -77,7 +77,8 @@ Section Classify.
     | O => fs
     | S f =>
         flat_map (fun fd =>
-          if f_embedded fd then
+          (* an embedded struct is merged unless its json tag carries a name (as encoding/json) *)
+          if f_embedded fd && String.eqb (before_comma (tag_lookup "json" (f_tag fd))) "" then
             match f_type fd with
             | GNamed id =>
                 match find_type id (pr_types pr) with
